@@ -141,7 +141,7 @@ def _r2_r3(ctx, repo):
     def is_dispatch(c):
         return isinstance(c.func, ast.Attribute) and c.func.attr in ("call", "eval") and dotted(c.func.value) == "self.klong"
     sites = [c for c in calls_in(f.node) if is_dispatch(c)]
-    ctx.floor("C09-R2", "dispatch sites in KGFnWrapper.__call__", len(sites), 2)
+    ctx.floor("C09-R2", "dispatch sites in KGFnWrapper.__call__", len(sites), 1)
     vararg = f.node.args.vararg.arg if f.node.args.vararg else "args"
     for c in sites:
         ctx.instance("C09-R2", f.fq, src(c)[:70])
@@ -169,27 +169,54 @@ def _r2_r3(ctx, repo):
                construct=f"arity guard for {fobj}", msg=f"the call through the Python wrapper dispatches {fobj} without checking the number of arguments against {fobj}.arity")
         # the arguments passed are the caller's arguments (lists converted to arrays is the documented conversion)
         argl = kg.args[1] if len(kg.args) > 1 else None
-        e = argl.elts[0].value if isinstance(argl, ast.List) and len(argl.elts) == 1 and isinstance(argl.elts[0], ast.Starred) else argl
+        e = argl.elts[0].value if isinstance(argl, ast.List) and len(argl.elts) == 1 and isinstance(argl.elts[0], ast.Starred) else argl      # [*xs] or xs
         if isinstance(e, ast.Name):
-            defs = [n for n in walk_local(f.node) if isinstance(n, ast.Assign) and n.lineno < c.lineno and any(isinstance(t, ast.Name) and t.id == e.id for t in n.targets)]
-            e = max(defs, key=lambda n: n.lineno).value if defs else e
+            defs = [n for n in walk_local(f.node) if isinstance(n, ast.Assign) and any(isinstance(t, ast.Name) and t.id == e.id for t in n.targets)]
+            if defs and len({src(n.value) for n in defs}) == 1:
+                e = defs[0].value
         ok = isinstance(e, ast.ListComp) and isinstance(e.generators[0].iter, ast.Name) and e.generators[0].iter.id == vararg and not e.generators[0].ifs
         ctx.ob("C09-R2", f.fq, "every caller argument is forwarded, in order", ok, node=c, construct="arguments forwarded in order")
     # ---- R3
     ctx.instance("C09-R3", f.fq)
-    dyn = [c for c in sites if isinstance(c.args[0], ast.Call) and c.args[0].args and isinstance(c.args[0].args[0], ast.Attribute) and
-           not src(c.args[0].args[0].value).startswith("self.")]
+    def origins(e, seen=()):
+        """where a dispatched function value can come from: 'looked' (context lookup under the wrapper's symbol, made in this call),
+        'stored' (self.fn), 'none' (the fallback marker), or ('other', text)"""
+        if isinstance(e, ast.Constant) and e.value is None:
+            return {("none", None)}
+        if isinstance(e, ast.Subscript) and dotted(e.value) in ("self.klong._context", "self.klong") and "self._sym" in src(e.slice):
+            return {("looked", e)}
+        if isinstance(e, ast.Attribute) and dotted(e) == "self.fn":
+            return {("stored", None)}
+        if isinstance(e, ast.IfExp):
+            return origins(e.body, seen) | origins(e.orelse, seen)
+        if isinstance(e, ast.BoolOp):
+            out = set()
+            for v_ in e.values:
+                out |= origins(v_, seen)
+            return out
+        if isinstance(e, ast.Name):
+            if e.id in seen:
+                return set()
+            defs_ = [n.value for n in walk_local(f.node) if isinstance(n, ast.Assign) and any(isinstance(t, ast.Name) and t.id == e.id for t in n.targets)]
+            out = set()
+            for d_ in defs_:
+                out |= origins(d_, seen + (e.id,))
+            return out or {("other", src(e))}
+        return {("other", src(e)[:40])}
+    disp = []
+    for c in sites:
+        if isinstance(c.args[0], ast.Call) and c.args[0].args and isinstance(c.args[0].args[0], ast.Attribute):
+            disp.append((c, origins(c.args[0].args[0].value)))
+    dyn = [(c, o) for c, o in disp if any(k == "looked" for k, _x in o)]
     ctx.ob("C09-R3", f.fq, "one dispatch uses a function value looked up during the call", len(dyn) >= 1, node=f.node, construct="call-time resolved dispatch present",
            msg="no dispatch in __call__ uses a function resolved at call time: redefinitions of the name are not followed")
-    for c in dyn:
-        v = c.args[0].args[0].value
-        d = resolve_single_assign(v, f.node) if isinstance(v, ast.Name) else v
-        # the definition(s) of the dispatched local: a subscript load from the interpreter context keyed by the wrapper's symbol (None = fallback marker)
-        defs = [n.value for n in walk_local(f.node) if isinstance(n, ast.Assign) and isinstance(v, ast.Name) and any(isinstance(t, ast.Name) and t.id == v.id for t in n.targets)]
-        looked = [x for x in defs if isinstance(x, ast.Subscript) and dotted(x.value) in ("self.klong._context", "self.klong") and "self._sym" in src(x.slice)]
-        others = [x for x in defs if x not in looked and not (isinstance(x, ast.Constant) and x.value is None)]
-        ctx.ob("C09-R3", f.fq, "the dispatched function is read from the interpreter context under the wrapper's symbol inside __call__", bool(looked) and not others, node=c,
-               construct="dispatched function looked up at call time", msg=f"the function dispatched is defined by {[src(x)[:40] for x in defs]}: not a call-time lookup of the symbol")
+    ctx.ob("C09-R3", f.fq, "a dispatch of the stored function exists as the fallback", any(any(k == "stored" for k, _x in o) for _c, o in disp), node=f.node, construct="fallback dispatch present")
+    for c, o in disp:
+        others = sorted(x for k, x in o if k == "other")
+        ctx.ob("C09-R3", f.fq, "the dispatched function is read from the interpreter context under the wrapper's symbol inside __call__ (or is the stored function)", not others, node=c,
+               construct="dispatched function looked up at call time", msg=f"the function dispatched can be {others}: not a call-time lookup of the symbol")
+    for c, o in dyn:
+        looked = [x for k, x in o if k == "looked"]
         for x in looked:
             tr = next((p for p in ancestors(x, f.node) if isinstance(p, ast.Try)), None)
             okh = tr is not None and any(h.type is not None and "KeyError" in src(h.type) for h in tr.handlers) and not any(
